@@ -121,3 +121,33 @@ Theorem C06_audit_explain_sound : forall fuel ws log sch,
                forallb (fun w => match w with [] => true | _ => false end) (snd (au_run sch (log0, ws))) = true.
 Proof. exact au_explain_sound. Qed.
 Print Assumptions C06_audit_explain_sound.
+
+(* the concurrent audit writer (index file behind cl.mux, `defer Unlock`): for every interleaving and
+   EVERY outcome (success / failure) of every index write, the mutex is held exactly when one
+   goroutine is between Lock and its deferred Unlock; it is free whenever no Write is in progress *)
+Theorem C06_concurrent_writer_lock_released : forall sched wss,
+  let st := cw_run false sched (cw_sh0, map cw_start wss) in
+  cw_holders (snd st) = (if cw_locked (fst st) then 1 else 0) /\
+  ((forall l, In l (snd st) -> cw_pcv l = CWIdle) -> cw_locked (fst st) = false).
+Proof. exact cw_lock_released. Qed.
+Print Assumptions C06_concurrent_writer_lock_released.
+
+(* no deadlock among writers sharing one audit log: while some goroutine has a Write to finish, some
+   goroutine makes progress at its next step whatever the outcome of its write (cw_size decreases) *)
+Theorem C06_concurrent_writer_no_deadlock : forall sched wss,
+  let st := cw_run false sched (cw_sh0, map cw_start wss) in
+  (exists l, In l (snd st) /\ cw_busy l = true) ->
+  exists i l, nth_error (snd st) i = Some l /\
+    forall fb, cw_size (snd (cw_step false fb (fst st) l)) < cw_size l.
+Proof. exact cw_no_deadlock. Qed.
+Print Assumptions C06_concurrent_writer_no_deadlock.
+
+(* the variant "explicit Unlock after the loop + early return on a failed write" is refuted: after one
+   failed index write the mutex is locked with no holder and a later Write blocks forever *)
+Theorem C06_concurrent_writer_early_return_refuted :
+  let st := cw_run true cw_bad_sched (cw_sh0, [cw_start [[[1%N]; [2%N]]]; cw_start [[[3%N]]]]) in
+  cw_locked (fst st) = true /\ cw_holders (snd st) = 0 /\
+  exists l, nth_error (snd st) 1 = Some l /\ cw_busy l = true /\
+            forall fb, cw_step true fb (fst st) l = (fst st, l).
+Proof. exact cw_early_return_refuted. Qed.
+Print Assumptions C06_concurrent_writer_early_return_refuted.
